@@ -306,6 +306,7 @@ def search(mod, args):
     harness_errors = []
     planned = 0
     truncated = False
+    stopped_early = False
     with _pool(mod.__name__, args.procs) as pool:
         futs = []
         for cfgname, cfg, nruns, chunk in plan:
@@ -329,6 +330,13 @@ def search(mod, args):
                     v["cfgname"] = agg["cfgname"]
                     violations.append(v)
                 harness_errors.extend(agg["harness_errors"])
+                if len(violations) >= 12 or harness_errors:
+                    # the verdict is settled: do not burn the rest of the budget (queued chunks are
+                    # dropped, running ones finish); the evidence reports the runs actually done
+                    stopped_early = True
+                    for g in futs:
+                        g.cancel()
+                    break
         except concurrent.futures.TimeoutError:
             truncated = True
             for f in futs:
